@@ -322,6 +322,14 @@ def r6(cx):
                 only_end = r[0] == "discr" and r[1][:3] == ("call", inner.q, inner.b)
         ok = plain and over_refs and only_end
         why = "exits %s, plain=%s, over the collected ancestors=%s" % (ex, plain, over_refs)
+    # every value is offered: nothing but the private-key test decides whether a name goes up (a JSON null is a value - the
+    # way to unset a variable; skipping it leaves the old value in every enclosing scope)
+    from vlib.model import conditions_of
+    from rules.c01 import gdesc
+    conds_ = sorted({gdesc(m, g) for g in conditions_of(m, f, upd[0].b, mode="alias") if not g.neutral})
+    extra_ = [d for d in conds_ if not re.search(r"Regex::is_match=False$|^match\(.*Iterator.*next\)=(Some|None)$|^match\(.*branch.*\)=Continue$|is_empty=False$|^match\(Task::parent\)=|^match\(parent\)=", d)]
+    cx.ob("C07.R6", "update_data:every-value", not extra_,
+          "update_data offers every written value to the enclosing scopes (conditions on the hand-up: %s)%s" % (conds_, "" if not extra_ else " - it also depends on %s: such values never reach the scopes that hold the name" % extra_), upd[0].loc)
     cx.ob("C07.R6", "update_data:all-holders", ok,
           "update_data offers the value to every collected ancestor: plain iteration, no exit before the end (a holder left out keeps a stale copy that Task::find - nearest first - or Task::vars - outermost first - reads back) (%s)" % why, upd[0].loc)
     # (c) the holder test: writes iff contains_key(name), the same name
